@@ -34,7 +34,7 @@ OPS = ["I", "IT", "DT", "TOL", "M", "KV", "E", "F", "R"]
 def instances(tier):
     out = []
     quick = tier == "quick"
-    b = dict(wall_s=40 if quick else 600, max_paths=1500 if quick else 20000)
+    b = dict(wall_s=40 if quick else 90, max_paths=1500 if quick else 20000)       # (thorough: 840 instances)
     seqs = [()]
     for L in (1, 2):
         seqs += list(itertools.product(OPS, repeat=L))
